@@ -105,7 +105,7 @@ theorem lseedIn_wf (ko : KeyOps) (t : LTx) (hwf : WF t) (j : Nat) (hj : j < t.vi
   have hvout : t.vin[j].vout < 2 ^ 32 := by
     rcases hwi.index with ⟨h1, _⟩ | ⟨h1, _⟩ <;> omega
   simp only [lseedIn, List.getElem?_eq_getElem hj, LInScope.clr, LInScope.withParts]
-  refine ⟨rfl, rfl, ?_, ?_, by simp, by simp, trivial, trivial, by simp, ⟨rfl, rfl⟩⟩
+  refine ⟨rfl, rfl, ?_, ?_, by simp, by simp, trivial, trivial, by simp, ⟨rfl, rfl⟩, by simp⟩
   · exact { InWF_empty ko with txid := hwi.txid, vout := hvout, sequence := hwi.sequence }
   · apply InScope.typedNL_of_lists _ rfl rfl
     refine ⟨?_, ?_, ?_, ?_, ?_⟩ <;> simp
